@@ -32,7 +32,7 @@ type c17op struct {
 	valid  bool
 	index  int
 	digest []byte // the digest that must reach the register when valid
-	call   func(t *world.TSM) error
+	call   func(t *world.TSM, b *c17bufs) error
 }
 
 // c17Hashes: SHA-384 first (the valid one), then every other crypto.Hash identifier including the
@@ -55,9 +55,9 @@ func c17Alphabet() []c17op {
 	for _, idx := range []int{math.MinInt, -1, 0, 1, 2, 3, 4, 5, math.MaxInt} {
 		for _, ln := range []int{0, 47, 48, 49, 64} {
 			for ci, content := range [][]byte{a, b} {
-				idx, d := idx, append([]byte(nil), content[:ln]...)
+				idx, ln, ci, d := idx, ln, ci, append([]byte(nil), content[:ln]...)
 				ops = append(ops, c17op{name: fmt.Sprintf("digest(idx=%d,len=%d,%c)", idx, ln, 'A'+ci), valid: idx >= 0 && idx <= 3 && ln == 48, index: idx, digest: d,
-					call: func(t *world.TSM) error { return rtmr.ExtendDigestClient(t, idx, d) }})
+					call: func(t *world.TSM, b *c17bufs) error { return rtmr.ExtendDigestClient(t, idx, b.digest(ci, ln)) }})
 			}
 		}
 	}
@@ -67,7 +67,7 @@ func c17Alphabet() []c17op {
 				idx, h, lg := idx, h, lg
 				sum := sha512.Sum384([]byte(lg))
 				ops = append(ops, c17op{name: fmt.Sprintf("eventlog(idx=%d,hash=%d,log=%q)", idx, h, lg), valid: idx >= 0 && idx <= 3 && h == crypto.SHA384 && lg != "", index: idx, digest: sum[:],
-					call: func(t *world.TSM) error { return rtmr.ExtendEventLogClient(t, idx, h, []byte(lg)) }})
+					call: func(t *world.TSM, b *c17bufs) error { return rtmr.ExtendEventLogClient(t, idx, h, b.log(lg)) }})
 			}
 		}
 	}
@@ -144,6 +144,7 @@ func runC17(r *mc.Run) {
 		in := inits[ii]
 		r.BFS("bfs/"+in.name, depth, len(ops), func(hist []int) (string, bool) {
 			t := in.build()
+			bufs := newC17bufs()
 			var ref [4][48]byte
 			for step, oi := range hist {
 				op := ops[oi]
@@ -153,7 +154,10 @@ func runC17(r *mc.Run) {
 					boundBefore = t.EntryFor(op.index)
 				}
 				var err error
-				func() { defer world.Recover(&err); err = op.call(t) }()
+				func() { defer world.Recover(&err); err = op.call(t, bufs) }()
+				if last := step == len(hist)-1; last && !bufs.intact() {
+					r.Violate("caller-buffer-changed:"+opKind(op), "hist/"+in.name+"/"+histName(ops, hist), "the request wrote into the caller's buffer (the event log / digest it was handed, or the bytes behind it)", map[string]any{"history": histNames(ops, hist)})
+				}
 				if op.valid && err == nil {
 					h := sha512.New384()
 					h.Write(ref[op.index][:])
@@ -255,7 +259,7 @@ func runC17(r *mc.Run) {
 			if !r.Want(id) {
 				return
 			}
-			lg := make([]byte, size)
+			lg := make([]byte, size, size+96) // room behind the log: a request must not write there either
 			for i := range lg {
 				lg[i] = byte(i*7 + i>>8 + i>>16)
 			}
@@ -263,6 +267,7 @@ func runC17(r *mc.Run) {
 				lg[size-1] ^= 0x01
 			}
 			sum := sha512.Sum384(lg)
+			keep := append([]byte(nil), lg[:cap(lg)]...)
 			op := c17op{name: fmt.Sprintf("eventlog(idx=2,hash=SHA-384,len=%d)", size), valid: true, index: 2, digest: sum[:]}
 			t := world.NewTSM()
 			var err error
@@ -274,6 +279,10 @@ func runC17(r *mc.Run) {
 				h.Write(want[2][:])
 				h.Write(sum[:])
 				copy(want[2][:], h.Sum(nil))
+			}
+			if !bytes.Equal(keep, lg[:cap(lg)]) {
+				r.Violate("caller-buffer-changed:event-log-size", id, "extending an event log wrote into the caller's buffer", map[string]any{"log_bytes": size})
+				out = "buffer-changed"
 			}
 			if t.Regs != want {
 				r.Violate("register-differs-from-extend-chain:event-log-size", id, "after extending an event log the register is not the extend chain of SHA-384(whole log)", map[string]any{"log_bytes": size})
@@ -396,3 +405,30 @@ func summarize(ops []world.TSMOp) []string {
 	}
 	return out
 }
+
+// c17bufs: the byte strings one caller hands to a history of requests, carved from ONE buffer with capacity to
+// spare behind every slice (event x, event y, digest A, digest B lie back to back): a request that writes behind or
+// into what it was handed damages what a later request measures.
+type c17bufs struct{ buf, pristine []byte }
+
+func newC17bufs() *c17bufs {
+	b := make([]byte, 0, 512)
+	b = append(b, "event-xevent-y"...)
+	b = append(b, world.Fill("digest-A", 64)...)
+	b = append(b, world.Fill("digest-B", 64)...)
+	return &c17bufs{buf: b[:512], pristine: append([]byte(nil), b[:512]...)}
+}
+
+func (b *c17bufs) log(lg string) []byte {
+	switch lg {
+	case "event-x":
+		return b.buf[0:7]
+	case "event-y":
+		return b.buf[7:14]
+	}
+	return b.buf[0:0]
+}
+
+func (b *c17bufs) digest(which, ln int) []byte { return b.buf[14+64*which : 14+64*which+ln] }
+
+func (b *c17bufs) intact() bool { return bytes.Equal(b.buf, b.pristine) }
